@@ -2575,7 +2575,12 @@ class Glommer:
         return
 
     def glom(self, target, spec, **kwargs):
-        return glom(target, spec, scope=self.scope, **kwargs)
+        scope = self.scope
+        if 'scope' in kwargs:
+            # the caller's values, on top of this Glommer's registry
+            scope = dict(scope)
+            scope.update(kwargs.pop('scope'))
+        return glom(target, spec, scope=scope, **kwargs)
 
 
 class Fill:
